@@ -84,6 +84,7 @@ def r1_handlers(report, repo):
                    rule, owner, c, c, 'RecordHandler added in %s' % owner,
                    'a RecordHandler is added from %s' % owner)
   report.expect_instances(rule, n, 1, 'RecordHandler installations')
+  m_lg = repo.module(LG)
   f = repo.func(LG, 'initialize_record_handler')
   ah = core.calls_in(f.node, attr='addHandler')
   ok = len(ah) == 1 and not core.repeated_by_loop(ah[0])
@@ -93,7 +94,9 @@ def r1_handlers(report, repo):
     ok = [dotted(a) for a in rh.args] == lib.param_names(f.node)
     recv = lib.resolved(f, ah[0].func.value)
     ok = ok and len(recv) == 1 and call_name(recv[0]) == 'logging.getLogger' \
-        and dotted(recv[0].args[0]) == 'LOGGER_PREFIX'
+        and (dotted(recv[0].args[0]) == 'LOGGER_PREFIX' or
+             _fold(m_lg, recv[0].args[0]) == _fold(m_lg, ast.Name(
+                 id='LOGGER_PREFIX', ctx=ast.Load())))
   report.check(ok, rule, f.qualname, 'one-handler', f.node,
                'exactly one handler per call, built from (uid, record, notify), '
                'on the top-level openhtf logger')
